@@ -31,6 +31,7 @@ def main():
     if "--props" in sys.argv:
         props = sys.argv[sys.argv.index("--props") + 1].split(",")
     crate = meta["crate"]
+    feat = ["--features", meta["features"]] if meta.get("features") else []
     res = {"seed": os.path.basename(sd), "property": meta["property"], "crate": crate, "checks": {}, "ran_at": time.strftime("%F %T")}
     if not os.path.exists(SCRATCH):
         rc, out = sh(["git", "-C", "/repo", "worktree", "add", "--detach", SCRATCH])
@@ -54,11 +55,11 @@ def main():
                 # pristine tree too) and take very long; the seeding agent's own filtered runs are recorded in meta.json
                 res["existing_lib_tests_pass_with_patch"] = "not re-run (see meta.json tests_run)"
             else:
-                rc, out = sh(["cargo", "test", "--offline", "-p", crate, "--lib", "-j", "8"], cwd=SCRATCH)
+                rc, out = sh(["cargo", "test", "--offline", "-p", crate, "--lib", "-j", "8"] + feat, cwd=SCRATCH)
                 res["existing_lib_tests_pass_with_patch"] = (rc == 0)
                 res["existing_tests_tail"] = out[-300:]
             sh(["cp", os.path.join(sd, "demo.rs"), demo_dst])
-            rc, out = sh(["cargo", "test", "--offline", "-p", crate, "--test", "seed_demo", "-j", "8"], cwd=SCRATCH)
+            rc, out = sh(["cargo", "test", "--offline", "-p", crate, "--test", "seed_demo", "-j", "8"] + feat, cwd=SCRATCH)
             res["demo_fails_with_patch"] = (rc != 0 and "test result: FAILED" in out)
             res["confirm_s"] = round(time.time() - t0)
             os.remove(demo_dst)
@@ -72,7 +73,7 @@ def main():
         sh(["git", "-C", SCRATCH, "checkout", "--", "."])
     if not skip_confirm:
         sh(["cp", os.path.join(sd, "demo.rs"), demo_dst])
-        rc, out = sh(["cargo", "test", "--offline", "-p", crate, "--test", "seed_demo", "-j", "8"], cwd=SCRATCH)
+        rc, out = sh(["cargo", "test", "--offline", "-p", crate, "--test", "seed_demo", "-j", "8"] + feat, cwd=SCRATCH)
         res["demo_passes_pristine"] = (rc == 0)
         os.remove(demo_dst)
     res["detected"] = any(c["exit"] == 1 and c["violation_lines"] for c in res["checks"].values())
